@@ -384,23 +384,69 @@ def _d6(chk, fb, files):
 
 
 def _d7(chk, fb):
+    """the value -> class lookup compares the value with every interior bound, starting with the first one. Recognised scans:
+    an index loop over bounds_ (start 0 reading bounds_[i], or start 1 reading bounds_[i-1]), an iterator walk that starts
+    at bounds_.begin(), or std::find_if / lower_bound / upper_bound over bounds_.begin() .. bounds_.end()"""
+    n = 0
     for q in (ADD + "::getValueCategory", ADD + "::getCategoryIndex"):
         f = fb.q1(q)
-        loops = [n for n in walk(f.body) if n["k"] == "ForStmt" and "bounds_" in render(f.nodes[n["cond"]])]
-        chk.floor("D7", "lookup loops in " + q, len(loops), 1)
-        for lp in loops:
+        sub = local_inits(f)
+        found = False
+        # (a) index loops
+        for lp in [x for x in walk(f.body) if x["k"] == "ForStmt" and "cond" in x and "bounds_" in render(f.nodes[x["cond"]], sub)]:
             init = f.nodes.get(lp.get("init"))
-            start = render(init["decls"][0]["init"]) if init is not None and init["k"] == "DeclStmt" and init["decls"][0].get("init") is not None else "?"
+            if init is None or init["k"] != "DeclStmt" or not init["decls"] or init["decls"][0].get("init") is None:
+                continue
+            start = render(init["decls"][0]["init"])
+            var = init["decls"][0]["name"]
             reads = [x for x in walk(f.nodes[lp["body"]]) if is_call(x) and x["callee"]["name"] == "operator[]" and "obj" in x and render(f.obj(x)) == "bounds_"]
-            var = init["decls"][0]["name"] if init is not None and init["k"] == "DeclStmt" else None
             idx = [render(f.args(x)[0]) for x in reads]
-            covers_first = (start == "0" and all(i == var for i in idx)) or (start == "1" and all(i == "(%s - 1)" % var for i in idx))
-            if covers_first:
-                chk.proved("D7", f.key, "scan-from-first-bound", f.loc(lp), "loop starts at %s and reads bounds_[%s]" % (start, idx[0] if idx else "?"))
-            else:
+            if not idx or start not in ("0", "1", "0U", "0UL", "1U", "1UL"):
+                continue
+            found = True
+            n += 1
+            st = start[0]
+            if (st == "0" and all(i == var for i in idx)) or (st == "1" and all(i == "(%s - 1)" % var for i in idx)):
+                chk.proved("D7", f.key, "scan-from-first-bound", f.loc(lp), "loop starts at %s and reads bounds_[%s]" % (start, idx[0]))
+            elif st == "1" and all(i == var for i in idx):
                 chk.refuted("D7", f.key, "scan-from-first-bound", f.loc(lp),
-                            "the lookup loop starts at index %s and reads bounds_[%s]: the first interior bound bounds_[0] is never compared, so a value in the second class is attributed to the first" % (start, idx[0] if idx else "?"),
+                            "the lookup loop starts at index %s and reads bounds_[%s]: the first interior bound bounds_[0] is never compared, so a value in the second class is attributed to the first" % (start, idx[0]),
                             witness={"input": "any value between the first and the second interior bound"})
+            else:
+                chk.unknown("D7", f.key, "scan-from-first-bound", f.loc(lp), "index loop reading bounds_[%s] from %s: not a recognised arrangement" % (idx[0], start))
+        # (b) std algorithms over the whole of bounds_
+        for c in f.calls():
+            if c["callee"]["qname"] in ("std::find_if", "std::lower_bound", "std::upper_bound", "std::find_if_not", "std::partition_point") and len(f.args(c)) >= 2:
+                a0, a1 = render(f.args(c)[0], sub).replace("this.", ""), render(f.args(c)[1], sub).replace("this.", "")
+                if a1 == "bounds_.end()":
+                    found = True
+                    n += 1
+                    if a0 == "bounds_.begin()":
+                        chk.proved("D7", f.key, "scan-from-first-bound", f.loc(c), "%s over bounds_.begin() .. bounds_.end()" % c["callee"]["name"])
+                    elif "bounds_.begin()" in a0:
+                        chk.refuted("D7", f.key, "scan-from-first-bound", f.loc(c), "the search starts at '%s', past the first interior bound: a value in the second class is attributed to the first" % a0,
+                                    witness={"input": "any value between the first and the second interior bound"})
+                    else:
+                        chk.unknown("D7", f.key, "scan-from-first-bound", f.loc(c), "search range starts at '%s'" % a0)
+        # (c) iterator walk: an iterator initialised from bounds_.begin() and advanced in a loop that compares through it
+        for dn in f.all_nodes():
+            if dn["k"] == "DeclStmt":
+                for d in dn["decls"]:
+                    if d.get("init") is not None and "bounds_.begin()" in render(d["init"]).replace("this.", "") and "iterator" in d["ty"]:
+                        it0 = render(d["init"]).replace("this.", "")
+                        uses = [x for x in f.all_nodes() if x["k"] == "UnaryOperator" and x.get("op") == "*" and render(kids(x)[0]) == d["name"]] + \
+                               [x for x in f.calls() if x["callee"]["name"] == "operator*" and "obj" in x and render(f.obj(x)) == d["name"]]
+                        if not uses:
+                            continue
+                        found = True
+                        n += 1
+                        if it0 == "bounds_.begin()":
+                            chk.proved("D7", f.key, "scan-from-first-bound", f.loc(dn), "iterator walk starting at bounds_.begin()")
+                        else:
+                            chk.refuted("D7", f.key, "scan-from-first-bound", f.loc(dn), "the bound iterator starts at '%s', past the first interior bound" % it0, witness={"input": "any value between the first and the second interior bound"})
+        if not found:
+            chk.unknown("D7", f.key, "scan-from-first-bound", f.loc(), "no scan of bounds_ recognised")
+    chk.floor("D7", "scans of bounds_ in the value -> class lookups", n, 1)
 
 
 def _d8(chk, fb, files):
